@@ -10,7 +10,7 @@ trap 'rm -rf "$S"' EXIT
 mkdir -p "$S/a" "$S/b" "$S/ev" "$S/rp"
 rsync -a --exclude .git --exclude __pycache__ /repo/ "$S/a/"
 rsync -a --exclude .git --exclude __pycache__ /repo/ "$S/b/"
-(cd "$S/b" && (git apply -p1 "$D/patch.diff" 2>/dev/null || patch -p1 -s < "$D/patch.diff")) || { echo "PATCH-FAILED"; exit 3; }
+(cd "$S/b" && (git apply -p1 "$D/patch.diff" 2>/dev/null || patch -p1 -s -F3 < "$D/patch.diff")) || { echo "PATCH-FAILED"; exit 3; }
 demo() { if [ -f "$D/demo.py" ]; then (cd "$S" && PYTHONPATH="$1" timeout 600 $PY "$D/demo.py" >"$S/demo.out" 2>&1); else (cd "$S" && PYTHONPATH="$1" timeout 600 bash "$D/demo.sh" "$1" >"$S/demo.out" 2>&1); fi; echo $?; }
 ra=$(demo "$S/a"); rb=$(demo "$S/b")
 echo "demo: unchanged exit=$ra changed exit=$rb"
